@@ -5,6 +5,7 @@ package main
 import (
 	"fmt"
 	"go/token"
+	"go/types"
 	"strings"
 
 	"golang.org/x/tools/go/ssa"
@@ -222,4 +223,160 @@ func c10LabelsTotal(w *World, r *Report) {
 	}
 	ex, _ := g.PathExists(IPos{body, -1}, posOf(l.Next), avoidInstrs(writes...))
 	r.Check(!ex, "C10/LABELS", "fromMap/copies-every-entry", w.Pos(fn.Pos()), "every entry of the given map is stored", "an entry of the given label map can be skipped: labels written through the Kubernetes backends differ from what was given (the memory backend keeps them)")
+}
+
+// c10LabelSource: what the Kubernetes backends write as the labels of a record comes from the release
+// being written (its user labels) and from the fixed system keys — never from the object stored
+// before. The memory backend replaces the record wholesale; a label dropped from the release must be
+// gone from the stored record too.
+func c10LabelSource(w *World, r *Report) {
+	r.Rule("C10/LABEL-SOURCE", "on the write paths of the Secret and ConfigMap backends every map poured into the label set (labels.fromMap) is the Labels field of the release being written", 6)
+	fm := w.Fn("pkg/storage/driver", "labels.fromMap")
+	if fm == nil {
+		r.Unk("C10/LABEL-SOURCE", "anchor", "-", "labels.fromMap not found")
+		return
+	}
+	n := 0
+	seen := map[string]int{}
+	for _, fn := range w.FuncsIn("pkg/storage/driver") {
+		file := w.FileOf(fn)
+		if !strings.HasSuffix(file, "secrets.go") && !strings.HasSuffix(file, "cfgmaps.go") {
+			continue
+		}
+		for _, c := range callInstrs(fn) {
+			f, _ := calleeOf(c.Common())
+			if f == nil || origin(f) != fm {
+				continue
+			}
+			n++
+			r.Fn(FuncName(fn))
+			arg := stripConv(c.Common().Args[len(c.Common().Args)-1])
+			ok := false
+			if ld, isLd := arg.(*ssa.UnOp); isLd && ld.Op == token.MUL {
+				if fa, isFA := ld.X.(*ssa.FieldAddr); isFA && isFieldOf(fa, relPkg, "Release", "Labels") {
+					if _, isParam := fa.X.(*ssa.Parameter); isParam {
+						ok = true
+					}
+				}
+			}
+			key := siteKey(Site{fn, c, posOf(c)})
+			seen[key]++
+			if seen[key] > 1 {
+				key = fmt.Sprintf("%s@%d", key, seen[key])
+			}
+			r.Check(ok, "C10/LABEL-SOURCE", key, w.InstrPos(c), "the label set is filled from the Labels of the release being written", "the label set of the object being written is filled from something else than the release's own Labels (for instance the labels of the object stored before): a user label removed from the release survives in the stored record, while the memory backend returns exactly the labels last written")
+		}
+	}
+	if n == 0 {
+		r.Unk("C10/LABEL-SOURCE", "no-site", "-", "no labels.fromMap call in the Kubernetes backends")
+	}
+}
+
+// writesThroughParams: fn (or a helm function it hands its parameters to) stores into memory reached
+// from one of its parameters.
+func writesThroughParams(fn *ssa.Function, depth int, seen map[*ssa.Function]bool) bool {
+	fn = origin(fn)
+	if fn == nil || len(fn.Blocks) == 0 || seen[fn] || depth > 4 {
+		return false
+	}
+	seen[fn] = true
+	var fromParam func(v ssa.Value, d int) bool
+	fromParam = func(v ssa.Value, d int) bool {
+		if d > 8 {
+			return false
+		}
+		switch x := v.(type) {
+		case *ssa.Parameter:
+			_, isPtr := x.Type().Underlying().(*types.Pointer)
+			_, isMap := x.Type().Underlying().(*types.Map)
+			_, isSl := x.Type().Underlying().(*types.Slice)
+			return isPtr || isMap || isSl
+		case *ssa.FieldAddr:
+			return fromParam(x.X, d+1)
+		case *ssa.IndexAddr:
+			return fromParam(x.X, d+1)
+		case *ssa.UnOp:
+			return x.Op == token.MUL && fromParam(x.X, d+1)
+		case *ssa.Phi:
+			for _, e := range x.Edges {
+				if fromParam(e, d+1) {
+					return true
+				}
+			}
+		case *ssa.Extract:
+			if nx, ok := x.Tuple.(*ssa.Next); ok { // range element of a parameter's slice/map
+				if rg, ok := nx.Iter.(*ssa.Range); ok {
+					return fromParam(rg.X, d+1)
+				}
+			}
+		}
+		return false
+	}
+	for _, b := range fn.Blocks {
+		for _, in := range b.Instrs {
+			switch x := in.(type) {
+			case *ssa.Store:
+				if _, local := x.Addr.(*ssa.Alloc); !local && fromParam(x.Addr, 0) {
+					return true
+				}
+			case *ssa.MapUpdate:
+				if fromParam(x.Map, 0) {
+					return true
+				}
+			case ssa.CallInstruction:
+				g, _ := calleeOf(x.Common())
+				if g == nil || !inHelm(g) {
+					continue
+				}
+				for _, a := range x.Common().Args {
+					if fromParam(a, 0) && writesThroughParams(g, depth+1, seen) {
+						return true
+					}
+				}
+			}
+		}
+	}
+	return false
+}
+
+// c10DecodePure: what decodeRelease returns is what was stored: nothing that can modify the decoded
+// release is called on it on the way out (a validator that also "sanitises" would make the Kubernetes
+// backends return something else than was written, and else than the memory backend returns).
+func c10DecodePure(w *World, r *Report) {
+	r.Rule("C10/DECODE-PURE", "decodeRelease hands the decoded release (or a part of it) to no helm function that writes through its arguments", 1)
+	dec := w.Fn("pkg/storage/driver", "decodeRelease")
+	if dec == nil {
+		r.Unk("C10/DECODE-PURE", "anchor", "-", "decodeRelease not found")
+		return
+	}
+	r.Fn(FuncName(dec))
+	bad := ""
+	n := 0
+	for _, fn := range withAnon(dec) {
+		for _, c := range callInstrs(fn) {
+			g, _ := calleeOf(c.Common())
+			if g == nil || !inHelm(g) {
+				continue
+			}
+			for _, a := range c.Common().Args {
+				isRel := false
+				backSlice(a, func(x ssa.Value) bool {
+					if al, ok := x.(*ssa.Alloc); ok {
+						if p, ok := al.Type().Underlying().(*types.Pointer); ok && isReleasePtr(types.NewPointer(p.Elem())) {
+							isRel = true
+						}
+					}
+					return false
+				})
+				if !isRel {
+					continue
+				}
+				n++
+				if writesThroughParams(g, 0, map[*ssa.Function]bool{}) {
+					bad = w.InstrPos(c) + " (" + FuncName(g) + ")"
+				}
+			}
+		}
+	}
+	r.Check(bad == "", "C10/DECODE-PURE", "decodeRelease", w.Pos(dec.Pos()), fmt.Sprintf("%d helm calls on the decoded release, none writes through its arguments", n), "the decoded release is handed to a function that modifies it at "+bad+": a record read back from a Secret or ConfigMap no longer equals what was stored")
 }
